@@ -482,7 +482,7 @@ rv_steps!(mpsc_store, MpscRvShared<u8>, 1);
 #[kani::stub(std::thread::current::current, crate::verif_k_stubs::stub_thread_current)]
 #[kani::stub(parking_lot::RawMutex::lock_slow, crate::verif_k_stubs::stub_lock_slow)]
 #[kani::stub(parking_lot::RawMutex::unlock_slow, crate::verif_k_stubs::stub_unlock_slow)]
-#[kani::unwind(4)]
+#[kani::unwind(6)]
 fn ob_rv_mpmc_store_try_send_s0r0() { mpmc_store::step_try_send(0, 0); }
 
 // @obligation id=rv.mpmc_store.try_send.s1r0 props=C01,C03,C06 kind=step tier=quick bound="VecDeque receiver store (mpmc); 1 parked senders, 0 parked receivers; counts any <=2; payloads any u8; one try_send"
@@ -490,7 +490,7 @@ fn ob_rv_mpmc_store_try_send_s0r0() { mpmc_store::step_try_send(0, 0); }
 #[kani::stub(std::thread::current::current, crate::verif_k_stubs::stub_thread_current)]
 #[kani::stub(parking_lot::RawMutex::lock_slow, crate::verif_k_stubs::stub_lock_slow)]
 #[kani::stub(parking_lot::RawMutex::unlock_slow, crate::verif_k_stubs::stub_unlock_slow)]
-#[kani::unwind(4)]
+#[kani::unwind(6)]
 fn ob_rv_mpmc_store_try_send_s1r0() { mpmc_store::step_try_send(1, 0); }
 
 // @obligation id=rv.mpmc_store.try_send.s2r0 props=C01,C03,C06 kind=step tier=quick bound="VecDeque receiver store (mpmc); 2 parked senders, 0 parked receivers; counts any <=2; payloads any u8; one try_send"
@@ -498,7 +498,7 @@ fn ob_rv_mpmc_store_try_send_s1r0() { mpmc_store::step_try_send(1, 0); }
 #[kani::stub(std::thread::current::current, crate::verif_k_stubs::stub_thread_current)]
 #[kani::stub(parking_lot::RawMutex::lock_slow, crate::verif_k_stubs::stub_lock_slow)]
 #[kani::stub(parking_lot::RawMutex::unlock_slow, crate::verif_k_stubs::stub_unlock_slow)]
-#[kani::unwind(4)]
+#[kani::unwind(6)]
 fn ob_rv_mpmc_store_try_send_s2r0() { mpmc_store::step_try_send(2, 0); }
 
 // @obligation id=rv.mpmc_store.try_send.s0r1 props=C01,C03,C06 kind=step tier=quick bound="VecDeque receiver store (mpmc); 0 parked senders, 1 parked receivers; counts any <=2; payloads any u8; one try_send"
@@ -506,7 +506,7 @@ fn ob_rv_mpmc_store_try_send_s2r0() { mpmc_store::step_try_send(2, 0); }
 #[kani::stub(std::thread::current::current, crate::verif_k_stubs::stub_thread_current)]
 #[kani::stub(parking_lot::RawMutex::lock_slow, crate::verif_k_stubs::stub_lock_slow)]
 #[kani::stub(parking_lot::RawMutex::unlock_slow, crate::verif_k_stubs::stub_unlock_slow)]
-#[kani::unwind(4)]
+#[kani::unwind(6)]
 fn ob_rv_mpmc_store_try_send_s0r1() { mpmc_store::step_try_send(0, 1); }
 
 // @obligation id=rv.mpmc_store.try_send.s0r2 props=C01,C03,C06 kind=step tier=quick bound="VecDeque receiver store (mpmc); 0 parked senders, 2 parked receivers; counts any <=2; payloads any u8; one try_send"
@@ -514,7 +514,7 @@ fn ob_rv_mpmc_store_try_send_s0r1() { mpmc_store::step_try_send(0, 1); }
 #[kani::stub(std::thread::current::current, crate::verif_k_stubs::stub_thread_current)]
 #[kani::stub(parking_lot::RawMutex::lock_slow, crate::verif_k_stubs::stub_lock_slow)]
 #[kani::stub(parking_lot::RawMutex::unlock_slow, crate::verif_k_stubs::stub_unlock_slow)]
-#[kani::unwind(4)]
+#[kani::unwind(6)]
 fn ob_rv_mpmc_store_try_send_s0r2() { mpmc_store::step_try_send(0, 2); }
 
 // @obligation id=rv.mpmc_store.try_recv.s0r0 props=C01,C02,C04,C06 kind=step tier=quick bound="VecDeque receiver store (mpmc); 0 parked senders, 0 parked receivers; counts any <=2; payloads any u8; one try_recv"
@@ -522,7 +522,7 @@ fn ob_rv_mpmc_store_try_send_s0r2() { mpmc_store::step_try_send(0, 2); }
 #[kani::stub(std::thread::current::current, crate::verif_k_stubs::stub_thread_current)]
 #[kani::stub(parking_lot::RawMutex::lock_slow, crate::verif_k_stubs::stub_lock_slow)]
 #[kani::stub(parking_lot::RawMutex::unlock_slow, crate::verif_k_stubs::stub_unlock_slow)]
-#[kani::unwind(4)]
+#[kani::unwind(6)]
 fn ob_rv_mpmc_store_try_recv_s0r0() { mpmc_store::step_try_recv(0, 0); }
 
 // @obligation id=rv.mpmc_store.try_recv.s1r0 props=C01,C02,C04,C06 kind=step tier=quick bound="VecDeque receiver store (mpmc); 1 parked senders, 0 parked receivers; counts any <=2; payloads any u8; one try_recv"
@@ -530,7 +530,7 @@ fn ob_rv_mpmc_store_try_recv_s0r0() { mpmc_store::step_try_recv(0, 0); }
 #[kani::stub(std::thread::current::current, crate::verif_k_stubs::stub_thread_current)]
 #[kani::stub(parking_lot::RawMutex::lock_slow, crate::verif_k_stubs::stub_lock_slow)]
 #[kani::stub(parking_lot::RawMutex::unlock_slow, crate::verif_k_stubs::stub_unlock_slow)]
-#[kani::unwind(4)]
+#[kani::unwind(6)]
 fn ob_rv_mpmc_store_try_recv_s1r0() { mpmc_store::step_try_recv(1, 0); }
 
 // @obligation id=rv.mpmc_store.try_recv.s2r0 props=C01,C02,C04,C06 kind=step tier=quick bound="VecDeque receiver store (mpmc); 2 parked senders, 0 parked receivers; counts any <=2; payloads any u8; one try_recv"
@@ -538,7 +538,7 @@ fn ob_rv_mpmc_store_try_recv_s1r0() { mpmc_store::step_try_recv(1, 0); }
 #[kani::stub(std::thread::current::current, crate::verif_k_stubs::stub_thread_current)]
 #[kani::stub(parking_lot::RawMutex::lock_slow, crate::verif_k_stubs::stub_lock_slow)]
 #[kani::stub(parking_lot::RawMutex::unlock_slow, crate::verif_k_stubs::stub_unlock_slow)]
-#[kani::unwind(4)]
+#[kani::unwind(6)]
 fn ob_rv_mpmc_store_try_recv_s2r0() { mpmc_store::step_try_recv(2, 0); }
 
 // @obligation id=rv.mpmc_store.try_recv.s0r1 props=C01,C02,C04,C06 kind=step tier=quick bound="VecDeque receiver store (mpmc); 0 parked senders, 1 parked receivers; counts any <=2; payloads any u8; one try_recv"
@@ -546,7 +546,7 @@ fn ob_rv_mpmc_store_try_recv_s2r0() { mpmc_store::step_try_recv(2, 0); }
 #[kani::stub(std::thread::current::current, crate::verif_k_stubs::stub_thread_current)]
 #[kani::stub(parking_lot::RawMutex::lock_slow, crate::verif_k_stubs::stub_lock_slow)]
 #[kani::stub(parking_lot::RawMutex::unlock_slow, crate::verif_k_stubs::stub_unlock_slow)]
-#[kani::unwind(4)]
+#[kani::unwind(6)]
 fn ob_rv_mpmc_store_try_recv_s0r1() { mpmc_store::step_try_recv(0, 1); }
 
 // @obligation id=rv.mpmc_store.try_recv.s0r2 props=C01,C02,C04,C06 kind=step tier=quick bound="VecDeque receiver store (mpmc); 0 parked senders, 2 parked receivers; counts any <=2; payloads any u8; one try_recv"
@@ -554,7 +554,7 @@ fn ob_rv_mpmc_store_try_recv_s0r1() { mpmc_store::step_try_recv(0, 1); }
 #[kani::stub(std::thread::current::current, crate::verif_k_stubs::stub_thread_current)]
 #[kani::stub(parking_lot::RawMutex::lock_slow, crate::verif_k_stubs::stub_lock_slow)]
 #[kani::stub(parking_lot::RawMutex::unlock_slow, crate::verif_k_stubs::stub_unlock_slow)]
-#[kani::unwind(4)]
+#[kani::unwind(6)]
 fn ob_rv_mpmc_store_try_recv_s0r2() { mpmc_store::step_try_recv(0, 2); }
 
 // @obligation id=rv.mpmc_store.poll_send_fresh.s0r0 props=C01,C03,C06 kind=step tier=quick bound="VecDeque receiver store (mpmc); 0 parked senders, 0 parked receivers; counts any <=2; payloads any u8; first poll of a send future, then the enabling try_recv / cancel"
@@ -562,7 +562,7 @@ fn ob_rv_mpmc_store_try_recv_s0r2() { mpmc_store::step_try_recv(0, 2); }
 #[kani::stub(std::thread::current::current, crate::verif_k_stubs::stub_thread_current)]
 #[kani::stub(parking_lot::RawMutex::lock_slow, crate::verif_k_stubs::stub_lock_slow)]
 #[kani::stub(parking_lot::RawMutex::unlock_slow, crate::verif_k_stubs::stub_unlock_slow)]
-#[kani::unwind(4)]
+#[kani::unwind(6)]
 fn ob_rv_mpmc_store_poll_send_fresh_s0r0() { mpmc_store::step_poll_send_fresh(0, 0); }
 
 // @obligation id=rv.mpmc_store.poll_send_fresh.s1r0 props=C01,C03,C06 kind=step tier=quick bound="VecDeque receiver store (mpmc); 1 parked senders, 0 parked receivers; counts any <=2; payloads any u8; first poll of a send future, then the enabling try_recv / cancel"
@@ -570,7 +570,7 @@ fn ob_rv_mpmc_store_poll_send_fresh_s0r0() { mpmc_store::step_poll_send_fresh(0,
 #[kani::stub(std::thread::current::current, crate::verif_k_stubs::stub_thread_current)]
 #[kani::stub(parking_lot::RawMutex::lock_slow, crate::verif_k_stubs::stub_lock_slow)]
 #[kani::stub(parking_lot::RawMutex::unlock_slow, crate::verif_k_stubs::stub_unlock_slow)]
-#[kani::unwind(4)]
+#[kani::unwind(6)]
 fn ob_rv_mpmc_store_poll_send_fresh_s1r0() { mpmc_store::step_poll_send_fresh(1, 0); }
 
 // @obligation id=rv.mpmc_store.poll_send_fresh.s0r1 props=C01,C03,C06 kind=step tier=quick bound="VecDeque receiver store (mpmc); 0 parked senders, 1 parked receivers; counts any <=2; payloads any u8; first poll of a send future, then the enabling try_recv / cancel"
@@ -578,7 +578,7 @@ fn ob_rv_mpmc_store_poll_send_fresh_s1r0() { mpmc_store::step_poll_send_fresh(1,
 #[kani::stub(std::thread::current::current, crate::verif_k_stubs::stub_thread_current)]
 #[kani::stub(parking_lot::RawMutex::lock_slow, crate::verif_k_stubs::stub_lock_slow)]
 #[kani::stub(parking_lot::RawMutex::unlock_slow, crate::verif_k_stubs::stub_unlock_slow)]
-#[kani::unwind(4)]
+#[kani::unwind(6)]
 fn ob_rv_mpmc_store_poll_send_fresh_s0r1() { mpmc_store::step_poll_send_fresh(0, 1); }
 
 // @obligation id=rv.mpmc_store.poll_send_fresh.s0r2 props=C01,C03,C06 kind=step tier=quick bound="VecDeque receiver store (mpmc); 0 parked senders, 2 parked receivers; counts any <=2; payloads any u8; first poll of a send future, then the enabling try_recv / cancel"
@@ -586,7 +586,7 @@ fn ob_rv_mpmc_store_poll_send_fresh_s0r1() { mpmc_store::step_poll_send_fresh(0,
 #[kani::stub(std::thread::current::current, crate::verif_k_stubs::stub_thread_current)]
 #[kani::stub(parking_lot::RawMutex::lock_slow, crate::verif_k_stubs::stub_lock_slow)]
 #[kani::stub(parking_lot::RawMutex::unlock_slow, crate::verif_k_stubs::stub_unlock_slow)]
-#[kani::unwind(4)]
+#[kani::unwind(6)]
 fn ob_rv_mpmc_store_poll_send_fresh_s0r2() { mpmc_store::step_poll_send_fresh(0, 2); }
 
 // @obligation id=rv.mpmc_store.poll_recv_fresh.s0r0 props=C01,C06 kind=step tier=quick bound="VecDeque receiver store (mpmc); 0 parked senders, 0 parked receivers; counts any <=2; payloads any u8; first poll of a recv future, then the enabling try_send / cancel"
@@ -594,7 +594,7 @@ fn ob_rv_mpmc_store_poll_send_fresh_s0r2() { mpmc_store::step_poll_send_fresh(0,
 #[kani::stub(std::thread::current::current, crate::verif_k_stubs::stub_thread_current)]
 #[kani::stub(parking_lot::RawMutex::lock_slow, crate::verif_k_stubs::stub_lock_slow)]
 #[kani::stub(parking_lot::RawMutex::unlock_slow, crate::verif_k_stubs::stub_unlock_slow)]
-#[kani::unwind(4)]
+#[kani::unwind(6)]
 fn ob_rv_mpmc_store_poll_recv_fresh_s0r0() { mpmc_store::step_poll_recv_fresh(0, 0); }
 
 // @obligation id=rv.mpmc_store.poll_recv_fresh.s1r0 props=C01,C06 kind=step tier=quick bound="VecDeque receiver store (mpmc); 1 parked senders, 0 parked receivers; counts any <=2; payloads any u8; first poll of a recv future, then the enabling try_send / cancel"
@@ -602,7 +602,7 @@ fn ob_rv_mpmc_store_poll_recv_fresh_s0r0() { mpmc_store::step_poll_recv_fresh(0,
 #[kani::stub(std::thread::current::current, crate::verif_k_stubs::stub_thread_current)]
 #[kani::stub(parking_lot::RawMutex::lock_slow, crate::verif_k_stubs::stub_lock_slow)]
 #[kani::stub(parking_lot::RawMutex::unlock_slow, crate::verif_k_stubs::stub_unlock_slow)]
-#[kani::unwind(4)]
+#[kani::unwind(6)]
 fn ob_rv_mpmc_store_poll_recv_fresh_s1r0() { mpmc_store::step_poll_recv_fresh(1, 0); }
 
 // @obligation id=rv.mpmc_store.poll_recv_fresh.s2r0 props=C01,C06 kind=step tier=quick bound="VecDeque receiver store (mpmc); 2 parked senders, 0 parked receivers; counts any <=2; payloads any u8; first poll of a recv future, then the enabling try_send / cancel"
@@ -610,7 +610,7 @@ fn ob_rv_mpmc_store_poll_recv_fresh_s1r0() { mpmc_store::step_poll_recv_fresh(1,
 #[kani::stub(std::thread::current::current, crate::verif_k_stubs::stub_thread_current)]
 #[kani::stub(parking_lot::RawMutex::lock_slow, crate::verif_k_stubs::stub_lock_slow)]
 #[kani::stub(parking_lot::RawMutex::unlock_slow, crate::verif_k_stubs::stub_unlock_slow)]
-#[kani::unwind(4)]
+#[kani::unwind(6)]
 fn ob_rv_mpmc_store_poll_recv_fresh_s2r0() { mpmc_store::step_poll_recv_fresh(2, 0); }
 
 // @obligation id=rv.mpmc_store.poll_recv_fresh.s0r1 props=C01,C06 kind=step tier=quick bound="VecDeque receiver store (mpmc); 0 parked senders, 1 parked receivers; counts any <=2; payloads any u8; first poll of a recv future, then the enabling try_send / cancel"
@@ -618,7 +618,7 @@ fn ob_rv_mpmc_store_poll_recv_fresh_s2r0() { mpmc_store::step_poll_recv_fresh(2,
 #[kani::stub(std::thread::current::current, crate::verif_k_stubs::stub_thread_current)]
 #[kani::stub(parking_lot::RawMutex::lock_slow, crate::verif_k_stubs::stub_lock_slow)]
 #[kani::stub(parking_lot::RawMutex::unlock_slow, crate::verif_k_stubs::stub_unlock_slow)]
-#[kani::unwind(4)]
+#[kani::unwind(6)]
 fn ob_rv_mpmc_store_poll_recv_fresh_s0r1() { mpmc_store::step_poll_recv_fresh(0, 1); }
 
 // @obligation id=rv.mpmc_store.repoll.s1r0 props=C06 kind=step tier=quick bound="VecDeque receiver store (mpmc); 1 parked senders, 0 parked receivers; counts any <=2; payloads any u8; re-poll of a registered future in every waiter state"
@@ -626,7 +626,7 @@ fn ob_rv_mpmc_store_poll_recv_fresh_s0r1() { mpmc_store::step_poll_recv_fresh(0,
 #[kani::stub(std::thread::current::current, crate::verif_k_stubs::stub_thread_current)]
 #[kani::stub(parking_lot::RawMutex::lock_slow, crate::verif_k_stubs::stub_lock_slow)]
 #[kani::stub(parking_lot::RawMutex::unlock_slow, crate::verif_k_stubs::stub_unlock_slow)]
-#[kani::unwind(4)]
+#[kani::unwind(6)]
 fn ob_rv_mpmc_store_repoll_s1r0() { mpmc_store::step_repoll(1, 0); }
 
 // @obligation id=rv.mpmc_store.repoll.s2r0 props=C06 kind=step tier=quick bound="VecDeque receiver store (mpmc); 2 parked senders, 0 parked receivers; counts any <=2; payloads any u8; re-poll of a registered future in every waiter state"
@@ -634,7 +634,7 @@ fn ob_rv_mpmc_store_repoll_s1r0() { mpmc_store::step_repoll(1, 0); }
 #[kani::stub(std::thread::current::current, crate::verif_k_stubs::stub_thread_current)]
 #[kani::stub(parking_lot::RawMutex::lock_slow, crate::verif_k_stubs::stub_lock_slow)]
 #[kani::stub(parking_lot::RawMutex::unlock_slow, crate::verif_k_stubs::stub_unlock_slow)]
-#[kani::unwind(4)]
+#[kani::unwind(6)]
 fn ob_rv_mpmc_store_repoll_s2r0() { mpmc_store::step_repoll(2, 0); }
 
 // @obligation id=rv.mpmc_store.repoll.s0r1 props=C06 kind=step tier=quick bound="VecDeque receiver store (mpmc); 0 parked senders, 1 parked receivers; counts any <=2; payloads any u8; re-poll of a registered future in every waiter state"
@@ -642,7 +642,7 @@ fn ob_rv_mpmc_store_repoll_s2r0() { mpmc_store::step_repoll(2, 0); }
 #[kani::stub(std::thread::current::current, crate::verif_k_stubs::stub_thread_current)]
 #[kani::stub(parking_lot::RawMutex::lock_slow, crate::verif_k_stubs::stub_lock_slow)]
 #[kani::stub(parking_lot::RawMutex::unlock_slow, crate::verif_k_stubs::stub_unlock_slow)]
-#[kani::unwind(4)]
+#[kani::unwind(6)]
 fn ob_rv_mpmc_store_repoll_s0r1() { mpmc_store::step_repoll(0, 1); }
 
 // @obligation id=rv.mpmc_store.repoll.s0r2 props=C06 kind=step tier=quick bound="VecDeque receiver store (mpmc); 0 parked senders, 2 parked receivers; counts any <=2; payloads any u8; re-poll of a registered future in every waiter state"
@@ -650,7 +650,7 @@ fn ob_rv_mpmc_store_repoll_s0r1() { mpmc_store::step_repoll(0, 1); }
 #[kani::stub(std::thread::current::current, crate::verif_k_stubs::stub_thread_current)]
 #[kani::stub(parking_lot::RawMutex::lock_slow, crate::verif_k_stubs::stub_lock_slow)]
 #[kani::stub(parking_lot::RawMutex::unlock_slow, crate::verif_k_stubs::stub_unlock_slow)]
-#[kani::unwind(4)]
+#[kani::unwind(6)]
 fn ob_rv_mpmc_store_repoll_s0r2() { mpmc_store::step_repoll(0, 2); }
 
 // @obligation id=rv.mpmc_store.drop_side.s0r0 props=C04,C06 kind=step tier=quick bound="VecDeque receiver store (mpmc); 0 parked senders, 0 parked receivers; counts any <=2; payloads any u8; drop of one sender or receiver handle"
@@ -658,7 +658,7 @@ fn ob_rv_mpmc_store_repoll_s0r2() { mpmc_store::step_repoll(0, 2); }
 #[kani::stub(std::thread::current::current, crate::verif_k_stubs::stub_thread_current)]
 #[kani::stub(parking_lot::RawMutex::lock_slow, crate::verif_k_stubs::stub_lock_slow)]
 #[kani::stub(parking_lot::RawMutex::unlock_slow, crate::verif_k_stubs::stub_unlock_slow)]
-#[kani::unwind(4)]
+#[kani::unwind(6)]
 fn ob_rv_mpmc_store_drop_side_s0r0() { mpmc_store::step_drop_side(0, 0); }
 
 // @obligation id=rv.mpmc_store.drop_side.s1r0 props=C04,C06 kind=step tier=quick bound="VecDeque receiver store (mpmc); 1 parked senders, 0 parked receivers; counts any <=2; payloads any u8; drop of one sender or receiver handle"
@@ -666,7 +666,7 @@ fn ob_rv_mpmc_store_drop_side_s0r0() { mpmc_store::step_drop_side(0, 0); }
 #[kani::stub(std::thread::current::current, crate::verif_k_stubs::stub_thread_current)]
 #[kani::stub(parking_lot::RawMutex::lock_slow, crate::verif_k_stubs::stub_lock_slow)]
 #[kani::stub(parking_lot::RawMutex::unlock_slow, crate::verif_k_stubs::stub_unlock_slow)]
-#[kani::unwind(4)]
+#[kani::unwind(6)]
 fn ob_rv_mpmc_store_drop_side_s1r0() { mpmc_store::step_drop_side(1, 0); }
 
 // @obligation id=rv.mpmc_store.drop_side.s2r0 props=C04,C06 kind=step tier=quick bound="VecDeque receiver store (mpmc); 2 parked senders, 0 parked receivers; counts any <=2; payloads any u8; drop of one sender or receiver handle"
@@ -674,7 +674,7 @@ fn ob_rv_mpmc_store_drop_side_s1r0() { mpmc_store::step_drop_side(1, 0); }
 #[kani::stub(std::thread::current::current, crate::verif_k_stubs::stub_thread_current)]
 #[kani::stub(parking_lot::RawMutex::lock_slow, crate::verif_k_stubs::stub_lock_slow)]
 #[kani::stub(parking_lot::RawMutex::unlock_slow, crate::verif_k_stubs::stub_unlock_slow)]
-#[kani::unwind(4)]
+#[kani::unwind(6)]
 fn ob_rv_mpmc_store_drop_side_s2r0() { mpmc_store::step_drop_side(2, 0); }
 
 // @obligation id=rv.mpmc_store.drop_side.s0r1 props=C04,C06 kind=step tier=quick bound="VecDeque receiver store (mpmc); 0 parked senders, 1 parked receivers; counts any <=2; payloads any u8; drop of one sender or receiver handle"
@@ -682,7 +682,7 @@ fn ob_rv_mpmc_store_drop_side_s2r0() { mpmc_store::step_drop_side(2, 0); }
 #[kani::stub(std::thread::current::current, crate::verif_k_stubs::stub_thread_current)]
 #[kani::stub(parking_lot::RawMutex::lock_slow, crate::verif_k_stubs::stub_lock_slow)]
 #[kani::stub(parking_lot::RawMutex::unlock_slow, crate::verif_k_stubs::stub_unlock_slow)]
-#[kani::unwind(4)]
+#[kani::unwind(6)]
 fn ob_rv_mpmc_store_drop_side_s0r1() { mpmc_store::step_drop_side(0, 1); }
 
 // @obligation id=rv.mpmc_store.drop_side.s0r2 props=C04,C06 kind=step tier=quick bound="VecDeque receiver store (mpmc); 0 parked senders, 2 parked receivers; counts any <=2; payloads any u8; drop of one sender or receiver handle"
@@ -690,7 +690,7 @@ fn ob_rv_mpmc_store_drop_side_s0r1() { mpmc_store::step_drop_side(0, 1); }
 #[kani::stub(std::thread::current::current, crate::verif_k_stubs::stub_thread_current)]
 #[kani::stub(parking_lot::RawMutex::lock_slow, crate::verif_k_stubs::stub_lock_slow)]
 #[kani::stub(parking_lot::RawMutex::unlock_slow, crate::verif_k_stubs::stub_unlock_slow)]
-#[kani::unwind(4)]
+#[kani::unwind(6)]
 fn ob_rv_mpmc_store_drop_side_s0r2() { mpmc_store::step_drop_side(0, 2); }
 
 // @obligation id=rv.mpsc_store.try_send.s0r0 props=C01,C03,C06 kind=step tier=quick bound="single-slot receiver store (mpsc); 0 parked senders, 0 parked receivers; counts any <=2; payloads any u8; one try_send"
@@ -698,7 +698,7 @@ fn ob_rv_mpmc_store_drop_side_s0r2() { mpmc_store::step_drop_side(0, 2); }
 #[kani::stub(std::thread::current::current, crate::verif_k_stubs::stub_thread_current)]
 #[kani::stub(parking_lot::RawMutex::lock_slow, crate::verif_k_stubs::stub_lock_slow)]
 #[kani::stub(parking_lot::RawMutex::unlock_slow, crate::verif_k_stubs::stub_unlock_slow)]
-#[kani::unwind(4)]
+#[kani::unwind(6)]
 fn ob_rv_mpsc_store_try_send_s0r0() { mpsc_store::step_try_send(0, 0); }
 
 // @obligation id=rv.mpsc_store.try_send.s1r0 props=C01,C03,C06 kind=step tier=quick bound="single-slot receiver store (mpsc); 1 parked senders, 0 parked receivers; counts any <=2; payloads any u8; one try_send"
@@ -706,7 +706,7 @@ fn ob_rv_mpsc_store_try_send_s0r0() { mpsc_store::step_try_send(0, 0); }
 #[kani::stub(std::thread::current::current, crate::verif_k_stubs::stub_thread_current)]
 #[kani::stub(parking_lot::RawMutex::lock_slow, crate::verif_k_stubs::stub_lock_slow)]
 #[kani::stub(parking_lot::RawMutex::unlock_slow, crate::verif_k_stubs::stub_unlock_slow)]
-#[kani::unwind(4)]
+#[kani::unwind(6)]
 fn ob_rv_mpsc_store_try_send_s1r0() { mpsc_store::step_try_send(1, 0); }
 
 // @obligation id=rv.mpsc_store.try_send.s2r0 props=C01,C03,C06 kind=step tier=quick bound="single-slot receiver store (mpsc); 2 parked senders, 0 parked receivers; counts any <=2; payloads any u8; one try_send"
@@ -714,7 +714,7 @@ fn ob_rv_mpsc_store_try_send_s1r0() { mpsc_store::step_try_send(1, 0); }
 #[kani::stub(std::thread::current::current, crate::verif_k_stubs::stub_thread_current)]
 #[kani::stub(parking_lot::RawMutex::lock_slow, crate::verif_k_stubs::stub_lock_slow)]
 #[kani::stub(parking_lot::RawMutex::unlock_slow, crate::verif_k_stubs::stub_unlock_slow)]
-#[kani::unwind(4)]
+#[kani::unwind(6)]
 fn ob_rv_mpsc_store_try_send_s2r0() { mpsc_store::step_try_send(2, 0); }
 
 // @obligation id=rv.mpsc_store.try_send.s0r1 props=C01,C03,C06 kind=step tier=quick bound="single-slot receiver store (mpsc); 0 parked senders, 1 parked receivers; counts any <=2; payloads any u8; one try_send"
@@ -722,7 +722,7 @@ fn ob_rv_mpsc_store_try_send_s2r0() { mpsc_store::step_try_send(2, 0); }
 #[kani::stub(std::thread::current::current, crate::verif_k_stubs::stub_thread_current)]
 #[kani::stub(parking_lot::RawMutex::lock_slow, crate::verif_k_stubs::stub_lock_slow)]
 #[kani::stub(parking_lot::RawMutex::unlock_slow, crate::verif_k_stubs::stub_unlock_slow)]
-#[kani::unwind(4)]
+#[kani::unwind(6)]
 fn ob_rv_mpsc_store_try_send_s0r1() { mpsc_store::step_try_send(0, 1); }
 
 // @obligation id=rv.mpsc_store.try_recv.s0r0 props=C01,C02,C04,C06 kind=step tier=quick bound="single-slot receiver store (mpsc); 0 parked senders, 0 parked receivers; counts any <=2; payloads any u8; one try_recv"
@@ -730,7 +730,7 @@ fn ob_rv_mpsc_store_try_send_s0r1() { mpsc_store::step_try_send(0, 1); }
 #[kani::stub(std::thread::current::current, crate::verif_k_stubs::stub_thread_current)]
 #[kani::stub(parking_lot::RawMutex::lock_slow, crate::verif_k_stubs::stub_lock_slow)]
 #[kani::stub(parking_lot::RawMutex::unlock_slow, crate::verif_k_stubs::stub_unlock_slow)]
-#[kani::unwind(4)]
+#[kani::unwind(6)]
 fn ob_rv_mpsc_store_try_recv_s0r0() { mpsc_store::step_try_recv(0, 0); }
 
 // @obligation id=rv.mpsc_store.try_recv.s1r0 props=C01,C02,C04,C06 kind=step tier=quick bound="single-slot receiver store (mpsc); 1 parked senders, 0 parked receivers; counts any <=2; payloads any u8; one try_recv"
@@ -738,7 +738,7 @@ fn ob_rv_mpsc_store_try_recv_s0r0() { mpsc_store::step_try_recv(0, 0); }
 #[kani::stub(std::thread::current::current, crate::verif_k_stubs::stub_thread_current)]
 #[kani::stub(parking_lot::RawMutex::lock_slow, crate::verif_k_stubs::stub_lock_slow)]
 #[kani::stub(parking_lot::RawMutex::unlock_slow, crate::verif_k_stubs::stub_unlock_slow)]
-#[kani::unwind(4)]
+#[kani::unwind(6)]
 fn ob_rv_mpsc_store_try_recv_s1r0() { mpsc_store::step_try_recv(1, 0); }
 
 // @obligation id=rv.mpsc_store.try_recv.s2r0 props=C01,C02,C04,C06 kind=step tier=quick bound="single-slot receiver store (mpsc); 2 parked senders, 0 parked receivers; counts any <=2; payloads any u8; one try_recv"
@@ -746,7 +746,7 @@ fn ob_rv_mpsc_store_try_recv_s1r0() { mpsc_store::step_try_recv(1, 0); }
 #[kani::stub(std::thread::current::current, crate::verif_k_stubs::stub_thread_current)]
 #[kani::stub(parking_lot::RawMutex::lock_slow, crate::verif_k_stubs::stub_lock_slow)]
 #[kani::stub(parking_lot::RawMutex::unlock_slow, crate::verif_k_stubs::stub_unlock_slow)]
-#[kani::unwind(4)]
+#[kani::unwind(6)]
 fn ob_rv_mpsc_store_try_recv_s2r0() { mpsc_store::step_try_recv(2, 0); }
 
 // @obligation id=rv.mpsc_store.try_recv.s0r1 props=C01,C02,C04,C06 kind=step tier=quick bound="single-slot receiver store (mpsc); 0 parked senders, 1 parked receivers; counts any <=2; payloads any u8; one try_recv"
@@ -754,7 +754,7 @@ fn ob_rv_mpsc_store_try_recv_s2r0() { mpsc_store::step_try_recv(2, 0); }
 #[kani::stub(std::thread::current::current, crate::verif_k_stubs::stub_thread_current)]
 #[kani::stub(parking_lot::RawMutex::lock_slow, crate::verif_k_stubs::stub_lock_slow)]
 #[kani::stub(parking_lot::RawMutex::unlock_slow, crate::verif_k_stubs::stub_unlock_slow)]
-#[kani::unwind(4)]
+#[kani::unwind(6)]
 fn ob_rv_mpsc_store_try_recv_s0r1() { mpsc_store::step_try_recv(0, 1); }
 
 // @obligation id=rv.mpsc_store.poll_send_fresh.s0r0 props=C01,C03,C06 kind=step tier=quick bound="single-slot receiver store (mpsc); 0 parked senders, 0 parked receivers; counts any <=2; payloads any u8; first poll of a send future, then the enabling try_recv / cancel"
@@ -762,7 +762,7 @@ fn ob_rv_mpsc_store_try_recv_s0r1() { mpsc_store::step_try_recv(0, 1); }
 #[kani::stub(std::thread::current::current, crate::verif_k_stubs::stub_thread_current)]
 #[kani::stub(parking_lot::RawMutex::lock_slow, crate::verif_k_stubs::stub_lock_slow)]
 #[kani::stub(parking_lot::RawMutex::unlock_slow, crate::verif_k_stubs::stub_unlock_slow)]
-#[kani::unwind(4)]
+#[kani::unwind(6)]
 fn ob_rv_mpsc_store_poll_send_fresh_s0r0() { mpsc_store::step_poll_send_fresh(0, 0); }
 
 // @obligation id=rv.mpsc_store.poll_send_fresh.s1r0 props=C01,C03,C06 kind=step tier=quick bound="single-slot receiver store (mpsc); 1 parked senders, 0 parked receivers; counts any <=2; payloads any u8; first poll of a send future, then the enabling try_recv / cancel"
@@ -770,7 +770,7 @@ fn ob_rv_mpsc_store_poll_send_fresh_s0r0() { mpsc_store::step_poll_send_fresh(0,
 #[kani::stub(std::thread::current::current, crate::verif_k_stubs::stub_thread_current)]
 #[kani::stub(parking_lot::RawMutex::lock_slow, crate::verif_k_stubs::stub_lock_slow)]
 #[kani::stub(parking_lot::RawMutex::unlock_slow, crate::verif_k_stubs::stub_unlock_slow)]
-#[kani::unwind(4)]
+#[kani::unwind(6)]
 fn ob_rv_mpsc_store_poll_send_fresh_s1r0() { mpsc_store::step_poll_send_fresh(1, 0); }
 
 // @obligation id=rv.mpsc_store.poll_send_fresh.s0r1 props=C01,C03,C06 kind=step tier=quick bound="single-slot receiver store (mpsc); 0 parked senders, 1 parked receivers; counts any <=2; payloads any u8; first poll of a send future, then the enabling try_recv / cancel"
@@ -778,7 +778,7 @@ fn ob_rv_mpsc_store_poll_send_fresh_s1r0() { mpsc_store::step_poll_send_fresh(1,
 #[kani::stub(std::thread::current::current, crate::verif_k_stubs::stub_thread_current)]
 #[kani::stub(parking_lot::RawMutex::lock_slow, crate::verif_k_stubs::stub_lock_slow)]
 #[kani::stub(parking_lot::RawMutex::unlock_slow, crate::verif_k_stubs::stub_unlock_slow)]
-#[kani::unwind(4)]
+#[kani::unwind(6)]
 fn ob_rv_mpsc_store_poll_send_fresh_s0r1() { mpsc_store::step_poll_send_fresh(0, 1); }
 
 // @obligation id=rv.mpsc_store.poll_recv_fresh.s0r0 props=C01,C06 kind=step tier=quick bound="single-slot receiver store (mpsc); 0 parked senders, 0 parked receivers; counts any <=2; payloads any u8; first poll of a recv future, then the enabling try_send / cancel"
@@ -786,7 +786,7 @@ fn ob_rv_mpsc_store_poll_send_fresh_s0r1() { mpsc_store::step_poll_send_fresh(0,
 #[kani::stub(std::thread::current::current, crate::verif_k_stubs::stub_thread_current)]
 #[kani::stub(parking_lot::RawMutex::lock_slow, crate::verif_k_stubs::stub_lock_slow)]
 #[kani::stub(parking_lot::RawMutex::unlock_slow, crate::verif_k_stubs::stub_unlock_slow)]
-#[kani::unwind(4)]
+#[kani::unwind(6)]
 fn ob_rv_mpsc_store_poll_recv_fresh_s0r0() { mpsc_store::step_poll_recv_fresh(0, 0); }
 
 // @obligation id=rv.mpsc_store.poll_recv_fresh.s1r0 props=C01,C06 kind=step tier=quick bound="single-slot receiver store (mpsc); 1 parked senders, 0 parked receivers; counts any <=2; payloads any u8; first poll of a recv future, then the enabling try_send / cancel"
@@ -794,7 +794,7 @@ fn ob_rv_mpsc_store_poll_recv_fresh_s0r0() { mpsc_store::step_poll_recv_fresh(0,
 #[kani::stub(std::thread::current::current, crate::verif_k_stubs::stub_thread_current)]
 #[kani::stub(parking_lot::RawMutex::lock_slow, crate::verif_k_stubs::stub_lock_slow)]
 #[kani::stub(parking_lot::RawMutex::unlock_slow, crate::verif_k_stubs::stub_unlock_slow)]
-#[kani::unwind(4)]
+#[kani::unwind(6)]
 fn ob_rv_mpsc_store_poll_recv_fresh_s1r0() { mpsc_store::step_poll_recv_fresh(1, 0); }
 
 // @obligation id=rv.mpsc_store.poll_recv_fresh.s2r0 props=C01,C06 kind=step tier=quick bound="single-slot receiver store (mpsc); 2 parked senders, 0 parked receivers; counts any <=2; payloads any u8; first poll of a recv future, then the enabling try_send / cancel"
@@ -802,7 +802,7 @@ fn ob_rv_mpsc_store_poll_recv_fresh_s1r0() { mpsc_store::step_poll_recv_fresh(1,
 #[kani::stub(std::thread::current::current, crate::verif_k_stubs::stub_thread_current)]
 #[kani::stub(parking_lot::RawMutex::lock_slow, crate::verif_k_stubs::stub_lock_slow)]
 #[kani::stub(parking_lot::RawMutex::unlock_slow, crate::verif_k_stubs::stub_unlock_slow)]
-#[kani::unwind(4)]
+#[kani::unwind(6)]
 fn ob_rv_mpsc_store_poll_recv_fresh_s2r0() { mpsc_store::step_poll_recv_fresh(2, 0); }
 
 // @obligation id=rv.mpsc_store.repoll.s1r0 props=C06 kind=step tier=quick bound="single-slot receiver store (mpsc); 1 parked senders, 0 parked receivers; counts any <=2; payloads any u8; re-poll of a registered future in every waiter state"
@@ -810,7 +810,7 @@ fn ob_rv_mpsc_store_poll_recv_fresh_s2r0() { mpsc_store::step_poll_recv_fresh(2,
 #[kani::stub(std::thread::current::current, crate::verif_k_stubs::stub_thread_current)]
 #[kani::stub(parking_lot::RawMutex::lock_slow, crate::verif_k_stubs::stub_lock_slow)]
 #[kani::stub(parking_lot::RawMutex::unlock_slow, crate::verif_k_stubs::stub_unlock_slow)]
-#[kani::unwind(4)]
+#[kani::unwind(6)]
 fn ob_rv_mpsc_store_repoll_s1r0() { mpsc_store::step_repoll(1, 0); }
 
 // @obligation id=rv.mpsc_store.repoll.s2r0 props=C06 kind=step tier=quick bound="single-slot receiver store (mpsc); 2 parked senders, 0 parked receivers; counts any <=2; payloads any u8; re-poll of a registered future in every waiter state"
@@ -818,7 +818,7 @@ fn ob_rv_mpsc_store_repoll_s1r0() { mpsc_store::step_repoll(1, 0); }
 #[kani::stub(std::thread::current::current, crate::verif_k_stubs::stub_thread_current)]
 #[kani::stub(parking_lot::RawMutex::lock_slow, crate::verif_k_stubs::stub_lock_slow)]
 #[kani::stub(parking_lot::RawMutex::unlock_slow, crate::verif_k_stubs::stub_unlock_slow)]
-#[kani::unwind(4)]
+#[kani::unwind(6)]
 fn ob_rv_mpsc_store_repoll_s2r0() { mpsc_store::step_repoll(2, 0); }
 
 // @obligation id=rv.mpsc_store.repoll.s0r1 props=C06 kind=step tier=quick bound="single-slot receiver store (mpsc); 0 parked senders, 1 parked receivers; counts any <=2; payloads any u8; re-poll of a registered future in every waiter state"
@@ -826,7 +826,7 @@ fn ob_rv_mpsc_store_repoll_s2r0() { mpsc_store::step_repoll(2, 0); }
 #[kani::stub(std::thread::current::current, crate::verif_k_stubs::stub_thread_current)]
 #[kani::stub(parking_lot::RawMutex::lock_slow, crate::verif_k_stubs::stub_lock_slow)]
 #[kani::stub(parking_lot::RawMutex::unlock_slow, crate::verif_k_stubs::stub_unlock_slow)]
-#[kani::unwind(4)]
+#[kani::unwind(6)]
 fn ob_rv_mpsc_store_repoll_s0r1() { mpsc_store::step_repoll(0, 1); }
 
 // @obligation id=rv.mpsc_store.drop_side.s0r0 props=C04,C06 kind=step tier=quick bound="single-slot receiver store (mpsc); 0 parked senders, 0 parked receivers; counts any <=2; payloads any u8; drop of one sender or receiver handle"
@@ -834,7 +834,7 @@ fn ob_rv_mpsc_store_repoll_s0r1() { mpsc_store::step_repoll(0, 1); }
 #[kani::stub(std::thread::current::current, crate::verif_k_stubs::stub_thread_current)]
 #[kani::stub(parking_lot::RawMutex::lock_slow, crate::verif_k_stubs::stub_lock_slow)]
 #[kani::stub(parking_lot::RawMutex::unlock_slow, crate::verif_k_stubs::stub_unlock_slow)]
-#[kani::unwind(4)]
+#[kani::unwind(6)]
 fn ob_rv_mpsc_store_drop_side_s0r0() { mpsc_store::step_drop_side(0, 0); }
 
 // @obligation id=rv.mpsc_store.drop_side.s1r0 props=C04,C06 kind=step tier=quick bound="single-slot receiver store (mpsc); 1 parked senders, 0 parked receivers; counts any <=2; payloads any u8; drop of one sender or receiver handle"
@@ -842,7 +842,7 @@ fn ob_rv_mpsc_store_drop_side_s0r0() { mpsc_store::step_drop_side(0, 0); }
 #[kani::stub(std::thread::current::current, crate::verif_k_stubs::stub_thread_current)]
 #[kani::stub(parking_lot::RawMutex::lock_slow, crate::verif_k_stubs::stub_lock_slow)]
 #[kani::stub(parking_lot::RawMutex::unlock_slow, crate::verif_k_stubs::stub_unlock_slow)]
-#[kani::unwind(4)]
+#[kani::unwind(6)]
 fn ob_rv_mpsc_store_drop_side_s1r0() { mpsc_store::step_drop_side(1, 0); }
 
 // @obligation id=rv.mpsc_store.drop_side.s2r0 props=C04,C06 kind=step tier=quick bound="single-slot receiver store (mpsc); 2 parked senders, 0 parked receivers; counts any <=2; payloads any u8; drop of one sender or receiver handle"
@@ -850,7 +850,7 @@ fn ob_rv_mpsc_store_drop_side_s1r0() { mpsc_store::step_drop_side(1, 0); }
 #[kani::stub(std::thread::current::current, crate::verif_k_stubs::stub_thread_current)]
 #[kani::stub(parking_lot::RawMutex::lock_slow, crate::verif_k_stubs::stub_lock_slow)]
 #[kani::stub(parking_lot::RawMutex::unlock_slow, crate::verif_k_stubs::stub_unlock_slow)]
-#[kani::unwind(4)]
+#[kani::unwind(6)]
 fn ob_rv_mpsc_store_drop_side_s2r0() { mpsc_store::step_drop_side(2, 0); }
 
 // @obligation id=rv.mpsc_store.drop_side.s0r1 props=C04,C06 kind=step tier=quick bound="single-slot receiver store (mpsc); 0 parked senders, 1 parked receivers; counts any <=2; payloads any u8; drop of one sender or receiver handle"
@@ -858,77 +858,77 @@ fn ob_rv_mpsc_store_drop_side_s2r0() { mpsc_store::step_drop_side(2, 0); }
 #[kani::stub(std::thread::current::current, crate::verif_k_stubs::stub_thread_current)]
 #[kani::stub(parking_lot::RawMutex::lock_slow, crate::verif_k_stubs::stub_lock_slow)]
 #[kani::stub(parking_lot::RawMutex::unlock_slow, crate::verif_k_stubs::stub_unlock_slow)]
-#[kani::unwind(4)]
+#[kani::unwind(6)]
 fn ob_rv_mpsc_store_drop_side_s0r1() { mpsc_store::step_drop_side(0, 1); }
 // @obligation id=rv.mpmc_store.cancel.s1r0i0 props=C01,C06 kind=step tier=quick bound="VecDeque receiver store (mpmc); 1 parked senders, 0 parked receivers; cancel of record 0, then a second cancel; counts any <=2; payloads any u8"
 #[kani::proof]
 #[kani::stub(std::thread::current::current, crate::verif_k_stubs::stub_thread_current)]
 #[kani::stub(parking_lot::RawMutex::lock_slow, crate::verif_k_stubs::stub_lock_slow)]
 #[kani::stub(parking_lot::RawMutex::unlock_slow, crate::verif_k_stubs::stub_unlock_slow)]
-#[kani::unwind(4)]
+#[kani::unwind(6)]
 fn ob_rv_mpmc_store_cancel_s1r0i0() { mpmc_store::step_cancel(1, 0, 0); }
 // @obligation id=rv.mpmc_store.cancel.s2r0i0 props=C01,C06 kind=step tier=quick bound="VecDeque receiver store (mpmc); 2 parked senders, 0 parked receivers; cancel of record 0, then a second cancel; counts any <=2; payloads any u8"
 #[kani::proof]
 #[kani::stub(std::thread::current::current, crate::verif_k_stubs::stub_thread_current)]
 #[kani::stub(parking_lot::RawMutex::lock_slow, crate::verif_k_stubs::stub_lock_slow)]
 #[kani::stub(parking_lot::RawMutex::unlock_slow, crate::verif_k_stubs::stub_unlock_slow)]
-#[kani::unwind(4)]
+#[kani::unwind(6)]
 fn ob_rv_mpmc_store_cancel_s2r0i0() { mpmc_store::step_cancel(2, 0, 0); }
 // @obligation id=rv.mpmc_store.cancel.s2r0i1 props=C01,C06 kind=step tier=quick bound="VecDeque receiver store (mpmc); 2 parked senders, 0 parked receivers; cancel of record 1, then a second cancel; counts any <=2; payloads any u8"
 #[kani::proof]
 #[kani::stub(std::thread::current::current, crate::verif_k_stubs::stub_thread_current)]
 #[kani::stub(parking_lot::RawMutex::lock_slow, crate::verif_k_stubs::stub_lock_slow)]
 #[kani::stub(parking_lot::RawMutex::unlock_slow, crate::verif_k_stubs::stub_unlock_slow)]
-#[kani::unwind(4)]
+#[kani::unwind(6)]
 fn ob_rv_mpmc_store_cancel_s2r0i1() { mpmc_store::step_cancel(2, 0, 1); }
 // @obligation id=rv.mpmc_store.cancel.s0r1i0 props=C01,C06 kind=step tier=quick bound="VecDeque receiver store (mpmc); 0 parked senders, 1 parked receivers; cancel of record 0, then a second cancel; counts any <=2; payloads any u8"
 #[kani::proof]
 #[kani::stub(std::thread::current::current, crate::verif_k_stubs::stub_thread_current)]
 #[kani::stub(parking_lot::RawMutex::lock_slow, crate::verif_k_stubs::stub_lock_slow)]
 #[kani::stub(parking_lot::RawMutex::unlock_slow, crate::verif_k_stubs::stub_unlock_slow)]
-#[kani::unwind(4)]
+#[kani::unwind(6)]
 fn ob_rv_mpmc_store_cancel_s0r1i0() { mpmc_store::step_cancel(0, 1, 0); }
 // @obligation id=rv.mpmc_store.cancel.s0r2i0 props=C01,C06 kind=step tier=quick bound="VecDeque receiver store (mpmc); 0 parked senders, 2 parked receivers; cancel of record 0, then a second cancel; counts any <=2; payloads any u8"
 #[kani::proof]
 #[kani::stub(std::thread::current::current, crate::verif_k_stubs::stub_thread_current)]
 #[kani::stub(parking_lot::RawMutex::lock_slow, crate::verif_k_stubs::stub_lock_slow)]
 #[kani::stub(parking_lot::RawMutex::unlock_slow, crate::verif_k_stubs::stub_unlock_slow)]
-#[kani::unwind(4)]
+#[kani::unwind(6)]
 fn ob_rv_mpmc_store_cancel_s0r2i0() { mpmc_store::step_cancel(0, 2, 0); }
 // @obligation id=rv.mpmc_store.cancel.s0r2i1 props=C01,C06 kind=step tier=quick bound="VecDeque receiver store (mpmc); 0 parked senders, 2 parked receivers; cancel of record 1, then a second cancel; counts any <=2; payloads any u8"
 #[kani::proof]
 #[kani::stub(std::thread::current::current, crate::verif_k_stubs::stub_thread_current)]
 #[kani::stub(parking_lot::RawMutex::lock_slow, crate::verif_k_stubs::stub_lock_slow)]
 #[kani::stub(parking_lot::RawMutex::unlock_slow, crate::verif_k_stubs::stub_unlock_slow)]
-#[kani::unwind(4)]
+#[kani::unwind(6)]
 fn ob_rv_mpmc_store_cancel_s0r2i1() { mpmc_store::step_cancel(0, 2, 1); }
 // @obligation id=rv.mpsc_store.cancel.s1r0i0 props=C01,C06 kind=step tier=quick bound="single-slot receiver store (mpsc); 1 parked senders, 0 parked receivers; cancel of record 0, then a second cancel; counts any <=2; payloads any u8"
 #[kani::proof]
 #[kani::stub(std::thread::current::current, crate::verif_k_stubs::stub_thread_current)]
 #[kani::stub(parking_lot::RawMutex::lock_slow, crate::verif_k_stubs::stub_lock_slow)]
 #[kani::stub(parking_lot::RawMutex::unlock_slow, crate::verif_k_stubs::stub_unlock_slow)]
-#[kani::unwind(4)]
+#[kani::unwind(6)]
 fn ob_rv_mpsc_store_cancel_s1r0i0() { mpsc_store::step_cancel(1, 0, 0); }
 // @obligation id=rv.mpsc_store.cancel.s2r0i0 props=C01,C06 kind=step tier=quick bound="single-slot receiver store (mpsc); 2 parked senders, 0 parked receivers; cancel of record 0, then a second cancel; counts any <=2; payloads any u8"
 #[kani::proof]
 #[kani::stub(std::thread::current::current, crate::verif_k_stubs::stub_thread_current)]
 #[kani::stub(parking_lot::RawMutex::lock_slow, crate::verif_k_stubs::stub_lock_slow)]
 #[kani::stub(parking_lot::RawMutex::unlock_slow, crate::verif_k_stubs::stub_unlock_slow)]
-#[kani::unwind(4)]
+#[kani::unwind(6)]
 fn ob_rv_mpsc_store_cancel_s2r0i0() { mpsc_store::step_cancel(2, 0, 0); }
 // @obligation id=rv.mpsc_store.cancel.s2r0i1 props=C01,C06 kind=step tier=quick bound="single-slot receiver store (mpsc); 2 parked senders, 0 parked receivers; cancel of record 1, then a second cancel; counts any <=2; payloads any u8"
 #[kani::proof]
 #[kani::stub(std::thread::current::current, crate::verif_k_stubs::stub_thread_current)]
 #[kani::stub(parking_lot::RawMutex::lock_slow, crate::verif_k_stubs::stub_lock_slow)]
 #[kani::stub(parking_lot::RawMutex::unlock_slow, crate::verif_k_stubs::stub_unlock_slow)]
-#[kani::unwind(4)]
+#[kani::unwind(6)]
 fn ob_rv_mpsc_store_cancel_s2r0i1() { mpsc_store::step_cancel(2, 0, 1); }
 // @obligation id=rv.mpsc_store.cancel.s0r1i0 props=C01,C06 kind=step tier=quick bound="single-slot receiver store (mpsc); 0 parked senders, 1 parked receivers; cancel of record 0, then a second cancel; counts any <=2; payloads any u8"
 #[kani::proof]
 #[kani::stub(std::thread::current::current, crate::verif_k_stubs::stub_thread_current)]
 #[kani::stub(parking_lot::RawMutex::lock_slow, crate::verif_k_stubs::stub_lock_slow)]
 #[kani::stub(parking_lot::RawMutex::unlock_slow, crate::verif_k_stubs::stub_unlock_slow)]
-#[kani::unwind(4)]
+#[kani::unwind(6)]
 fn ob_rv_mpsc_store_cancel_s0r1i0() { mpsc_store::step_cancel(0, 1, 0); }
 
 // @obligation id=rv.mpmc_store.cancel_terminal.s2r0S props=C01,C06 kind=step tier=quick bound="VecDeque receiver store (mpmc); 2 parked senders, 0 parked receivers; cancel_sender of an already resolved waiter (DONE, CANCELLED, DISCONNECTED)"
@@ -936,7 +936,7 @@ fn ob_rv_mpsc_store_cancel_s0r1i0() { mpsc_store::step_cancel(0, 1, 0); }
 #[kani::stub(std::thread::current::current, crate::verif_k_stubs::stub_thread_current)]
 #[kani::stub(parking_lot::RawMutex::lock_slow, crate::verif_k_stubs::stub_lock_slow)]
 #[kani::stub(parking_lot::RawMutex::unlock_slow, crate::verif_k_stubs::stub_unlock_slow)]
-#[kani::unwind(5)]
+#[kani::unwind(6)]
 fn ob_rv_mpmc_store_cancel_terminal_s2r0_0() { mpmc_store::step_cancel_terminal(2, 0, false); }
 
 // @obligation id=rv.mpmc_store.cancel_terminal.s2r0R props=C01,C06 kind=step tier=quick bound="VecDeque receiver store (mpmc); 2 parked senders, 0 parked receivers; cancel_receiver of an already resolved waiter (DONE, CANCELLED, DISCONNECTED)"
@@ -944,7 +944,7 @@ fn ob_rv_mpmc_store_cancel_terminal_s2r0_0() { mpmc_store::step_cancel_terminal(
 #[kani::stub(std::thread::current::current, crate::verif_k_stubs::stub_thread_current)]
 #[kani::stub(parking_lot::RawMutex::lock_slow, crate::verif_k_stubs::stub_lock_slow)]
 #[kani::stub(parking_lot::RawMutex::unlock_slow, crate::verif_k_stubs::stub_unlock_slow)]
-#[kani::unwind(5)]
+#[kani::unwind(6)]
 fn ob_rv_mpmc_store_cancel_terminal_s2r0_1() { mpmc_store::step_cancel_terminal(2, 0, true); }
 
 // @obligation id=rv.mpmc_store.cancel_terminal.s0r2S props=C01,C06 kind=step tier=quick bound="VecDeque receiver store (mpmc); 0 parked senders, 2 parked receivers; cancel_sender of an already resolved waiter (DONE, CANCELLED, DISCONNECTED)"
@@ -952,7 +952,7 @@ fn ob_rv_mpmc_store_cancel_terminal_s2r0_1() { mpmc_store::step_cancel_terminal(
 #[kani::stub(std::thread::current::current, crate::verif_k_stubs::stub_thread_current)]
 #[kani::stub(parking_lot::RawMutex::lock_slow, crate::verif_k_stubs::stub_lock_slow)]
 #[kani::stub(parking_lot::RawMutex::unlock_slow, crate::verif_k_stubs::stub_unlock_slow)]
-#[kani::unwind(5)]
+#[kani::unwind(6)]
 fn ob_rv_mpmc_store_cancel_terminal_s0r2_0() { mpmc_store::step_cancel_terminal(0, 2, false); }
 
 // @obligation id=rv.mpmc_store.cancel_terminal.s0r2R props=C01,C06 kind=step tier=quick bound="VecDeque receiver store (mpmc); 0 parked senders, 2 parked receivers; cancel_receiver of an already resolved waiter (DONE, CANCELLED, DISCONNECTED)"
@@ -960,7 +960,7 @@ fn ob_rv_mpmc_store_cancel_terminal_s0r2_0() { mpmc_store::step_cancel_terminal(
 #[kani::stub(std::thread::current::current, crate::verif_k_stubs::stub_thread_current)]
 #[kani::stub(parking_lot::RawMutex::lock_slow, crate::verif_k_stubs::stub_lock_slow)]
 #[kani::stub(parking_lot::RawMutex::unlock_slow, crate::verif_k_stubs::stub_unlock_slow)]
-#[kani::unwind(5)]
+#[kani::unwind(6)]
 fn ob_rv_mpmc_store_cancel_terminal_s0r2_1() { mpmc_store::step_cancel_terminal(0, 2, true); }
 
 // @obligation id=rv.mpsc_store.cancel_terminal.s2r0S props=C01,C06 kind=step tier=quick bound="single-slot receiver store (mpsc); 2 parked senders, 0 parked receivers; cancel_sender of an already resolved waiter (DONE, CANCELLED, DISCONNECTED)"
@@ -968,7 +968,7 @@ fn ob_rv_mpmc_store_cancel_terminal_s0r2_1() { mpmc_store::step_cancel_terminal(
 #[kani::stub(std::thread::current::current, crate::verif_k_stubs::stub_thread_current)]
 #[kani::stub(parking_lot::RawMutex::lock_slow, crate::verif_k_stubs::stub_lock_slow)]
 #[kani::stub(parking_lot::RawMutex::unlock_slow, crate::verif_k_stubs::stub_unlock_slow)]
-#[kani::unwind(5)]
+#[kani::unwind(6)]
 fn ob_rv_mpsc_store_cancel_terminal_s2r0_0() { mpsc_store::step_cancel_terminal(2, 0, false); }
 
 // @obligation id=rv.mpsc_store.cancel_terminal.s2r0R props=C01,C06 kind=step tier=quick bound="single-slot receiver store (mpsc); 2 parked senders, 0 parked receivers; cancel_receiver of an already resolved waiter (DONE, CANCELLED, DISCONNECTED)"
@@ -976,7 +976,7 @@ fn ob_rv_mpsc_store_cancel_terminal_s2r0_0() { mpsc_store::step_cancel_terminal(
 #[kani::stub(std::thread::current::current, crate::verif_k_stubs::stub_thread_current)]
 #[kani::stub(parking_lot::RawMutex::lock_slow, crate::verif_k_stubs::stub_lock_slow)]
 #[kani::stub(parking_lot::RawMutex::unlock_slow, crate::verif_k_stubs::stub_unlock_slow)]
-#[kani::unwind(5)]
+#[kani::unwind(6)]
 fn ob_rv_mpsc_store_cancel_terminal_s2r0_1() { mpsc_store::step_cancel_terminal(2, 0, true); }
 
 // @obligation id=rv.mpsc_store.cancel_terminal.s0r1S props=C01,C06 kind=step tier=quick bound="single-slot receiver store (mpsc); 0 parked senders, 1 parked receivers; cancel_sender of an already resolved waiter (DONE, CANCELLED, DISCONNECTED)"
@@ -984,7 +984,7 @@ fn ob_rv_mpsc_store_cancel_terminal_s2r0_1() { mpsc_store::step_cancel_terminal(
 #[kani::stub(std::thread::current::current, crate::verif_k_stubs::stub_thread_current)]
 #[kani::stub(parking_lot::RawMutex::lock_slow, crate::verif_k_stubs::stub_lock_slow)]
 #[kani::stub(parking_lot::RawMutex::unlock_slow, crate::verif_k_stubs::stub_unlock_slow)]
-#[kani::unwind(5)]
+#[kani::unwind(6)]
 fn ob_rv_mpsc_store_cancel_terminal_s0r1_0() { mpsc_store::step_cancel_terminal(0, 1, false); }
 
 // @obligation id=rv.mpsc_store.cancel_terminal.s0r1R props=C01,C06 kind=step tier=quick bound="single-slot receiver store (mpsc); 0 parked senders, 1 parked receivers; cancel_receiver of an already resolved waiter (DONE, CANCELLED, DISCONNECTED)"
@@ -992,7 +992,7 @@ fn ob_rv_mpsc_store_cancel_terminal_s0r1_0() { mpsc_store::step_cancel_terminal(
 #[kani::stub(std::thread::current::current, crate::verif_k_stubs::stub_thread_current)]
 #[kani::stub(parking_lot::RawMutex::lock_slow, crate::verif_k_stubs::stub_lock_slow)]
 #[kani::stub(parking_lot::RawMutex::unlock_slow, crate::verif_k_stubs::stub_unlock_slow)]
-#[kani::unwind(5)]
+#[kani::unwind(6)]
 fn ob_rv_mpsc_store_cancel_terminal_s0r1_1() { mpsc_store::step_cancel_terminal(0, 1, true); }
 
 // ---- cancel vs. handoff at lock granularity (C01.rv.lockinv) ---------------------------
